@@ -250,7 +250,11 @@ def _run_case(case, rec, mon=None):
         x = gen.signal(rng, int(N), kind, dt, views=True)
         x.setflags(write=False)
         try:
-            if j % 3 == 2:
+            if j % 5 == 4:
+                with monitor.strict_settings():  # settings a user may choose: FP division by zero raises, UserWarnings are errors
+                    comp.compute_full(x)
+                rec.count("calls_under_strict_process_settings")
+            elif j % 3 == 2:
                 comp.compute_full(signal=x)  # the same call spelled with the keyword
             else:
                 comp.compute_full(x)
